@@ -21,14 +21,6 @@ theorem onBytesWritten_eq (env : Env) (s : Sock) (n : Int) :
     let s' := Sock.onBytesWritten env {} s n
     encWs s'.ws = r.1 ∧ s'.hdrRemaining = r.2.1 ∧ s'.log = s.log ++ r.2.2.map Obs.bw := by
   simp only [QhttpGen.Ack.onBytesWritten, Sock.onBytesWritten, Sock.emit, Sock.apis]
-  by_cases h1 : s.ws = .headers
-  · by_cases h2 : n < s.hdrRemaining
-    · simp [h1, h2, encWs]
-    · simp [h1, h2, encWs]
-  · by_cases h3 : s.ws = .data
-    · simp [h3, encWs]
-    · have e1 : encWs s.ws ≠ 1 := by cases hw : s.ws <;> simp_all [encWs]
-      have e2 : encWs s.ws ≠ 2 := by cases hw : s.ws <;> simp_all [encWs]
-      simp [h1, h3, e1, e2]
+  cases hw : s.ws <;> simp only [encWs] <;> (split <;> simp_all <;> grind)
 
 end QhttpBridge.Ack
